@@ -15,7 +15,10 @@ GENERATORS = {"probe": gens.gen_probe, "c04_quick": gens.gen_c04("quick"), "c04_
               "c12_quick": gens.gen_c12("quick"), "c12_thorough": gens.gen_c12("thorough"),
               "c20_quick": gens.gen_c20("quick"), "c20_thorough": gens.gen_c20("thorough"),
               "c01_quick": gens.gen_c01("quick"), "c01_thorough": gens.gen_c01("thorough"),
-              "c02_quick": gens.gen_c02("quick"), "c02_thorough": gens.gen_c02("thorough")}
+              "c02_quick": gens.gen_c02("quick"), "c02_thorough": gens.gen_c02("thorough"),
+              "c06_quick": gens.gen_c06("quick"), "c06_thorough": gens.gen_c06("thorough"),
+              "c07_quick": gens.gen_c07("quick"), "c07_thorough": gens.gen_c07("thorough"),
+              "c11_quick": gens.gen_c11("quick"), "c11_thorough": gens.gen_c11("thorough")}
 
 # interim reasons while the framework is being built (kept current with every commit)
 NOT_YET = {}
@@ -127,6 +130,121 @@ PROPS = {
         "outside": "field contents longer than 4 bytes (length arithmetic on them is linear; boundaries via C15)",
         "tiers": {"quick": {"modules": ["g_c02_v3", "g_c02_v5"], "generators": ["c02_quick"], "timeout_s": 600, "mem_gb": 8, "jobs": 14},
                   "thorough": {"modules": ["g_c02_v3", "g_c02_v5"], "generators": ["c02_thorough"], "timeout_s": 1200, "mem_gb": 10, "jobs": 12}},
+    },
+    "C06": {
+        "level": "model_checking",
+        "claim": "On frame ++ 2 symbolic tail bytes, per shape: the blocking decoder equals the async decoder with eof mapped to incomplete (same packet / same error); whenever the "
+                 "strict decoder accepts, both return that packet; whenever it rejects with anything but a remaining-length mismatch, both return that error.",
+        "note": "all three on the sync twin (async = decode_async on a never-pending slice reader); strict = C05 composition; dispatch tables are compared through the per-type shapes",
+        "functions": ["Packet::decode (v3, v5)", "Packet::decode_async", "Header::decode_async", "decode_raw_header", "strict composition"],
+        "bounds": {"quick": "about 45 shapes incl. malformed ones", "thorough": "all v3 shapes and v5 shapes up to 16 bytes"},
+        "outside": "decode_async on readers that return Pending / short reads (await propagation + tokio ReadExact, not code of this crate)",
+        "tiers": {"quick": {"modules": ["g_c06"], "generators": ["c06_quick"], "timeout_s": 900, "mem_gb": 10, "jobs": 14},
+                  "thorough": {"modules": ["g_c06"], "generators": ["c06_thorough"], "timeout_s": 1800, "mem_gb": 12, "jobs": 10}},
+    },
+    "C07": {
+        "level": "model_checking",
+        "claim": "For valid encodings (all spec constraints assumed on symbolic content) of the selected shapes every strict prefix is Ok(None) for the blocking decoder and an eof error for "
+                 "the async decoder, the complete encoding decodes; trailing bytes are ignored (C06 scenarios run on frame ++ tail and require the same packet and exact consumption).",
+        "note": "end of stream inside a frame for the poll decoder is decided by the C05 steps (script 'end of stream here' at every position)",
+        "functions": ["Packet::decode", "Packet::decode_async", "Error::is_eof", "ErrorV5::is_eof"],
+        "bounds": {"quick": "shapes up to 14 bytes, every cut position", "thorough": "shapes up to 20 bytes"},
+        "outside": "longer encodings",
+        "tiers": {"quick": {"modules": ["g_c07"], "generators": ["c07_quick"], "timeout_s": 900, "mem_gb": 10, "jobs": 14},
+                  "thorough": {"modules": ["g_c07"], "generators": ["c07_thorough"], "timeout_s": 1800, "mem_gb": 12, "jobs": 10}},
+    },
+    "C13": {
+        "level": "model_checking",
+        "claim": "Protocol::new is decided against the three valid (name, level) pairs for every name of 0,1,3..7 bytes and every level (InvalidProtocol carrying name+level, InvalidString for "
+                 "non-UTF-8 names); a symbolic v3.1 / v3.1.1 CONNECT given to the v5 blocking, strict and body decoders, and a v5 CONNECT given to the v3 ones, yield "
+                 "UnexpectedProtocol(version found) after consuming exactly protocol name + level, and resuming with the matching family's decode_with_protocol equals the native decode.",
+        "note": "sync twin; from_utf8 replaced by the byte-wise UTF-8 model (Protocol::new) / class stub (packets)",
+        "functions": ["Protocol::new", "Protocol::decode_async", "v3::Connect::{decode_async, decode_with_protocol}", "v5::Connect::{decode_async, decode_with_protocol}"],
+        "bounds": {"all": "names up to 7 bytes (2-byte names omitted: no valid name has that length and the code path is the same as for 1 and 3); one CONNECT shape per version (client id 1 byte, no will/credentials)"},
+        "outside": "longer names; CONNECT shapes with will/credentials in the cross-family scenario (their decoding is C04)",
+        "tiers": {"quick": {"modules": ["p_c13"], "timeout_s": 600, "mem_gb": 8}, "thorough": {"modules": ["p_c13"], "timeout_s": 1200, "mem_gb": 12}},
+    },
+    "C17": {
+        "level": "model_checking",
+        "claim": "For every ASCII filter text of the enumerated shapes (plain, '$share/'+3..5, near-miss prefixes) that the constructor accepts: text read-back, is_shared, shared_group_name, "
+                 "shared_filter, shared_info equal the unique '$share/'+name+'/'+filter split (no slicing panic); Eq/Ord/PartialOrd/Hash of two filters equal those of their texts.",
+        "note": "real constructor and validator (no class stub); Hash compared through a recording Hasher",
+        "functions": ["TopicFilter::try_from", "TopicFilter::{is_shared, shared_group_name, shared_filter, shared_info}", "Deref/Eq/Ord/PartialOrd/Hash for TopicFilter"],
+        "bounds": {"all": "ASCII content, 3..5 symbolic bytes after the concrete prefix"},
+        "outside": "multi-byte share names (the separator index arithmetic on them is covered at validator level by C16, which compares the byte index); longer filters",
+        "tiers": {"quick": {"modules": ["p_c17"], "timeout_s": 900, "mem_gb": 10}, "thorough": {"modules": ["p_c17"], "timeout_s": 1800, "mem_gb": 16}},
+    },
+    "C18": {
+        "level": "model_checking",
+        "claim": "TopicName::is_invalid equals the MQTT rule for every string of up to 6 arbitrary Unicode scalars; through the constructor (ASCII shapes with concrete '$share/', '$SYS/' and "
+                 "near-miss prefixes) accepted names read back unchanged and is_shared/is_sys match the prefixes; the 65536-byte guard is decided in C16's length_limit harness.",
+        "note": "packet-level call sites (PUBLISH topic, will topic, response topic) are C12/C20 class queries",
+        "functions": ["TopicName::is_invalid", "TopicName::try_from", "TopicName::{is_shared, is_sys}", "Deref for TopicName"],
+        "bounds": {"quick": "N <= 4 scalars", "thorough": "N <= 6"},
+        "outside": "longer strings",
+        "tiers": {"quick": {"modules": ["p_c18", "p_c16"], "select": r"c18_plain[0-4]$|c18_ctor|c16_length_limit", "timeout_s": 600, "mem_gb": 8},
+                  "thorough": {"modules": ["p_c18", "p_c16"], "select": r"c18_|c16_length_limit", "timeout_s": 1800, "mem_gb": 16}},
+    },
+    "C03": {
+        "level": "model_checking",
+        "claim": "Every byte string of length 0..3 through the blocking decoders and Header::decode of both families, and every 6-byte header prefix through Header::decode, with all of "
+                 "Kani's checks (arithmetic overflow, out-of-bounds, invalid pointer, unwrap/expect/unreachable!/debug_assert reachability, unwinding assertions = termination) as obligations. "
+                 "Longer inputs are covered per shape: the same checks are obligations in every C04/C06/C07/C12/C20 scenario and in the C05 steps (poll buffer discipline).",
+        "note": "sync twin; the poll decoder's MaybeUninit buffer is covered structurally by the C05 invariant (every index below idx was written by the reader); -Z uninit-checks ICEs on this toolchain",
+        "functions": ["Packet::decode (v3, v5)", "Header::decode (v3, v5)", "decode_raw_header", "decode_var_int"],
+        "bounds": {"all": "arbitrary strings up to 3 bytes (4 bytes make the first inner length field symbolic, i.e. a symbolic-size allocation: not decidable here); headers of 6 bytes"},
+        "outside": "arbitrary strings of 4+ bytes other than the enumerated shapes; allocation failure (Kani models alloc as infallible); the real async front-end on pending readers",
+        "tiers": {"quick": {"modules": ["p_c03"], "timeout_s": 900, "mem_gb": 12}, "thorough": {"modules": ["p_c03"], "timeout_s": 1800, "mem_gb": 16}},
+    },
+    "C09": {
+        "level": "model_checking",
+        "claim": "The real encode_async coroutine with tokio's write_all, driven by a scripted AsyncWrite sink (1..k bytes per write, Pending before/between writes), emits exactly the bytes of "
+                 "encode() for a v3 PUBLISH (symbolic pid/topic/payload/dup), the fixed-size v3 packets and a v5 PUBACK with properties; encode() twice is identical; VarBytes::{Fixed2,Fixed4,Dynamic}::as_ref "
+                 "exposes exactly those bytes. Packet-level = header ++ body stream is asserted against the spec image by C10's packet-level scenarios.",
+        "note": "scripts are concrete (positions must be), contents symbolic; one coroutine level is within reach of the solver",
+        "functions": ["v3::Packet::encode_async", "v5::Packet::encode_async", "tokio::io::AsyncWriteExt::write_all", "Packet::encode", "VarBytes::as_ref"],
+        "bounds": {"all": "3 packets families x 3-4 scripts, encodings up to 10 bytes"},
+        "outside": "other packet types through encode_async (the function body is type-independent: encode() then write_all); symbolic sink schedules",
+        "tiers": {"quick": {"modules": ["p_c09"], "timeout_s": 900, "mem_gb": 12}, "thorough": {"modules": ["p_c09"], "timeout_s": 1800, "mem_gb": 16}},
+    },
+    "C14": {
+        "level": "model_checking",
+        "claim": "Streaming encoders into a sink that fails (error kind / zero-length write) after `limit` bytes, for every limit: the error kind is reported, only a prefix of the correct encoding was "
+                 "accepted (v3 PUBLISH, v3 CONNECT, v5 PUBACK, v5 PUBLISH bodies); encode_async under sink faults (in C09's module); the poll decoder under a transport error / end of stream at every "
+                 "position (C05 step scripts); conversions Error -> std::io::Error preserve the I/O kind and map protocol errors to InvalidData; is_eof <=> UnexpectedEof.",
+        "note": "From<io::Error> for Error is stubbed to keep the kind and drop the message (core::fmt is out of reach); decode_async under read faults is not encoded separately: on the twin a read "
+                "fault is a `?` on read_exact, the same path as end of input, which C07 and the class queries exercise",
+        "functions": ["Encodable::encode (4 bodies)", "Packet::encode_async", "GenericPollPacket::poll error paths", "From<Error> for io::Error", "Error::is_eof", "ErrorV5::is_eof"],
+        "bounds": {"all": "every fault position of encodings up to 19 bytes; 6 error kinds for conversions"},
+        "outside": "the three manual map_err(|e| IoError(e.kind(), e.to_string())) sites of the v5 async decoder (to_string is core::fmt); Error::from(io::Error) itself",
+        "tiers": {"quick": {"modules": ["p_c14", "p_c09", "p_c05"], "select": r"^c14_|c09_v3_publish_async|c05_steps_(all_rem2|all_rem2_hl3|empty_hl3)$", "timeout_s": 900, "mem_gb": 12},
+                  "thorough": {"modules": ["p_c14", "p_c09", "p_c05"], "select": r"^c14_|c09_v3_publish_async|c05_steps_", "timeout_s": 1800, "mem_gb": 16}},
+    },
+    "C11": {
+        "level": "model_checking",
+        "claim": "For every enumerated shape (canonical and non-canonical spellings: PUBACK-family medium/long forms with reason 0x00 or without properties, DISCONNECT code/long, AUTH long, "
+                 "CONNECT flag variants): whenever the strict decoder accepts, the returned value's streaming encoder succeeds, writes exactly encode_len() bytes (so Packet::encode cannot trip its "
+                 "debug assertion or emit a wrong remaining length), at most as many as were consumed, and for canonical shapes exactly the frame body - which C04 shows decodes to the same value.",
+        "note": "body level (reading the decoder's value through the Packet enum into the streaming encoder); packet-level header glue is C09/C10; the blocking/async front-ends return the same "
+                "value as the strict one by C06",
+        "functions": ["every body decode_async (twin)", "every Encodable::{encode, encode_len}"],
+        "bounds": {"quick": "every second canonical shape + all non-canonical shapes of the C04 catalogue", "thorough": "all"},
+        "outside": "non-minimal property-length / remaining-length varints (lenient framing of the blocking decoder); as C04",
+        "tiers": {"quick": {"modules": ["g_c11"], "generators": ["c11_quick"], "timeout_s": 600, "mem_gb": 8, "jobs": 14},
+                  "thorough": {"modules": ["g_c11"], "generators": ["c11_thorough"], "timeout_s": 1200, "mem_gb": 10, "jobs": 12}},
+    },
+    "C08": {
+        "level": "model_checking",
+        "claim": "Framing is decided as an induction step over the packet count: (poll) for every stream position and transport script the real poll.rs on a generic header reports a total equal to the "
+                 "bytes it consumed and never requests a byte beyond the frame, with one byte of the next packet present (incl. 3-6 byte headers and body-less packets); (blocking/async) on frame ++ 2 "
+                 "symbolic bytes of the next packet the async decoder consumes exactly the frame and both return the frame's packet; a fresh default state on an empty remainder reports eof / Ok(None).",
+        "note": "the step is decided per shape; 'any finite sequence' follows by induction on the number of packets (each step leaves the stream exactly at the next frame and the state is the default state)",
+        "functions": ["GenericPollPacket::poll", "Packet::decode_async", "Packet::decode", "GenericPollPacketState::default"],
+        "bounds": {"all": "C05 streams (bodies up to 4 bytes, headers up to 6 bytes) and the C06 shape list; sequences by induction, not by enumeration"},
+        "outside": "real packets with 2-4 byte remaining-length fields (bodies >= 128 bytes) through the blocking/async decoders; the poll side covers wide headers with the generic header only",
+        "tiers": {"quick": {"modules": ["p_c05", "g_c06"], "generators": ["c06_quick"], "select": r"^c08_|^c05_steps_(all_rem2|all_rem2_hl3|all_rem2_hl5|empty_hl2|empty_hl3|empty_hl5)$|_(publish_q1_t1_p1|connack|suback_2|pingreq|puback|connect_v311_f02_c1|disconnect_empty|auth_empty|subscribe_1|puback_short|publish_q0_t1_p1_x03l1)__agree$",
+                            "timeout_s": 900, "mem_gb": 10, "jobs": 14},
+                  "thorough": {"modules": ["p_c05", "g_c06"], "generators": ["c06_thorough"], "select": r"^c08_|^c05_steps_|__agree$", "timeout_s": 1800, "mem_gb": 12, "jobs": 10}},
     },
     "C19": {
         "level": "model_checking",
